@@ -74,11 +74,14 @@ def replay(job):
         hooked = idx % 7 == 6
         # every fifth history: the config file lists itself with the pattern of a [project] table only (version = "..."), which finds the current_version line as well
         embedded = idx % 5 == 4 and not respell
-        proj.write("bumpver.toml", project.bumpver_toml(prj["v0"], prj["pattern"], [(pre + "bumpver.toml", ['version = "{version}"'] if embedded else ['current_version = "{version}"'] + (["# release {version}"] if respell else [])),
+        # every eleventh history: the config file is reached through a glob key only, with a pattern for another line of it - the pattern for its
+        # current_version line is then implicit, as it is when the file is not listed at all
+        globself = idx % 11 == 9 and not respell and not embedded
+        proj.write("bumpver.toml", project.bumpver_toml(prj["v0"], prj["pattern"], [("*.toml", ["# release {version}"]) if globself else (pre + "bumpver.toml", ['version = "{version}"'] if embedded else ['current_version = "{version}"'] + (["# release {version}"] if respell else [])),
                                                                                     (pre + "a.txt", ["ver={version}", "pep={pep440_version}"]),
                                                                                     (docs, [prj["partial"]])],       # a file with a PARTIAL pattern only
                                                         commit=True, tag=True, push=False, extra=dict({"tag_scope": ([s["scope"] for s in hist if s["act"] == "update"] or ["default"])[0]}, **({"pre_commit_hook": "stamp.sh"} if hooked else {})))
-                   + ("\n# release %s\n" % prj["v0"] if respell else "") + ('\n[project]\nname = "demo"\nversion = "%s"\n' % prj["v0"] if embedded else ""))
+                   + ("\n# release %s\n" % prj["v0"] if (respell or globself) else "") + ('\n[project]\nname = "demo"\nversion = "%s"\n' % prj["v0"] if embedded else ""))
         # both occurrences on ONE line, the pattern listed second to the left of the one listed first (replacements must not depend on the order of the patterns)
         proj.write("a.txt", "intro\npep=%s ver=%s\n" % (pep0, prj["v0"]))
         part0 = v2version.format_version(v2version.parse_version_info(prj["v0"], prj["pattern"]), prj["partial"])
